@@ -22,6 +22,7 @@
 (*   pw   : TRUE iff a port DDR/DR register is written (peripheral side    *)
 (*          effects are specified by H8Port, not here)                     *)
 (*   sys  : "write" for the MES write system call (con = its bytes), else ""*)
+(*   q    : "odd" = word / long operand at an odd address (see QualR)       *)
 (***************************************************************************)
 EXTENDS H8Forms, H8Cost
 
@@ -68,8 +69,13 @@ IsMem(d) == d[1] \in MemKinds
 
 (* ---- result constructors -------------------------------------------------- *)
 Res(res, er, ccr, cm, pc, wr, cyc, con, row, pw) ==
-  [res |-> res, er |-> er, ccr |-> ccr, cm |-> cm, pc |-> pc, wr |-> wr, cyc |-> cyc, con |-> con, row |-> row, pw |-> pw, sys |-> ""]
+  [res |-> res, er |-> er, ccr |-> ccr, cm |-> cm, pc |-> pc, wr |-> wr, cyc |-> cyc, con |-> con, row |-> row, pw |-> pw, sys |-> "", q |-> ""]
 SysR(r, sys) == [r EXCEPT !.sys = sys]
+(* qualifier "odd": a word / long operand at an odd effective address.  The result given is the plain *)
+(* composition of the consecutive bytes at EA (what C09 states); C01 and the other per-instruction     *)
+(* properties quantify over even operand addresses only, so their checks treat a qualified result as   *)
+(* "any".                                                                                              *)
+QualR(r, q) == [r EXCEPT !.q = q, !.cyc = -1]
 ErrR(s, row) == Res("err", s.er, s.ccr, 255, s.pc, {<<>>}, -1, <<>>, row, FALSE)
 AnyR(s, row) == Res("any", s.er, s.ccr, 255, s.pc, {<<>>}, -1, <<>>, row, FALSE)
 OkR(er, ccr, pc, wr, cyc, row) == Res("ok", er, ccr, 255, pc, {wr}, cyc, <<>>, row, \E i \in 1..Len(wr) : IsPortReg(wr[i][1]))
@@ -154,7 +160,7 @@ Exec(s, ri, ws) ==
   ELSE CASE
   (* ------------------------------------------------------------------ MOV *)
   r.mn = "MOV" ->
-    IF ovl \/ odd THEN AnyR(s, ri)
+    IF ovl THEN AnyR(s, ri)
     ELSE IF ~accOK THEN ErrR(s, ri)
     ELSE LET v == CASE a[1] = "R" -> RegRead(s.er, sz, Field(ws, a))
                     [] a[1] = "I8" -> <<0, ws[1] % 256>>
@@ -163,8 +169,9 @@ Exec(s, ri, ws) ==
                     [] OTHER -> RdV(s.mem, ea, sz)
              f == FlagsNZ(sz, v)
              ccr2 == CcrWith(s.ccr, -1, f.n, f.z, 0, -1)
-         IN IF IsMem(b) THEN OkR(er1, ccr2, npc, WrSeq(ea, sz, v), cost(ea, -1, -1), ri)
-            ELSE OkR(RegWrite(er1, sz, Field(ws, b), v), ccr2, npc, <<>>, cost(ea, -1, -1), ri)
+             res == IF IsMem(b) THEN OkR(er1, ccr2, npc, WrSeq(ea, sz, v), cost(ea, -1, -1), ri)
+                    ELSE OkR(RegWrite(er1, sz, Field(ws, b), v), ccr2, npc, <<>>, cost(ea, -1, -1), ri)
+         IN IF odd THEN QualR(res, "odd") ELSE res
   (* ------------------------------------------------ ADD SUB CMP ADDX *)
   [] r.mn \in {"ADD", "SUB", "CMP", "ADDX"} ->
     LET sv == CASE a[1] = "R" -> RegRead(s.er, sz, Field(ws, a))
